@@ -4,6 +4,7 @@
 #include "gen.hpp"
 #include <functional>
 #include <sys/stat.h>
+#include <ctime>
 
 namespace vf {
 
@@ -21,9 +22,29 @@ inline bool remove_vertex(GraphSpec &g, int v) {
     return true;
 }
 
-inline void minimise_graph_case(Case &c, const std::function<bool(const Case &)> &still_fails) {
+inline void minimise_graph_case(Case &c, const std::function<bool(const Case &)> &still_fails_raw) {
     int budget = 3000;
+    // minimisation only affects how small the replay file is, never the verdict: bound it in evaluations and in time
+    time_t t_end = time(nullptr) + 90;
+    auto still_fails = [&](const Case &d) { if (time(nullptr) > t_end) { budget = 0; return false; } return still_fails_raw(d); };
     bool progress = true;
+    // chunked edge removal first (large graphs)
+    for (int chunk = c.g.m() / 2; chunk >= 2 && budget > 0; chunk /= 2) {
+        for (int start = 0; start < c.g.m() && budget > 0;) {
+            Case d = c;
+            int end = std::min(c.g.m(), start + chunk);
+            d.g.edges.erase(d.g.edges.begin() + start, d.g.edges.begin() + end);
+            d.g.w.erase(d.g.w.begin() + start, d.g.w.begin() + end);
+            budget--;
+            if (still_fails(d)) c = d; else start += chunk;
+        }
+    }
+    // drop all isolated vertices at once
+    {
+        Case d = c;
+        for (int v = d.g.n - 1; v >= 0; v--) remove_vertex(d.g, v);
+        if (d.g.n != c.g.n) { budget--; if (still_fails(d)) c = d; }
+    }
     while (progress && budget > 0) {
         progress = false;
         // drop edges
@@ -121,7 +142,11 @@ inline int run_main(int argc, char **argv, std::map<std::string, Prop> &props) {
     Case lastFail;
     Verdict lastV;
     bool haveFail = false;
+    time_t shrink_deadline = 0;
     bool ok = rc::check(a.property, [&]() {
+        // bound the time rapidcheck spends shrinking (large cases): once over, every further candidate "passes" unevaluated;
+        // this only affects how small the reported case is - our own time-bounded minimiser runs afterwards
+        if (haveFail && time(nullptr) > shrink_deadline) return;
         Case c = P.gen();
         c.property = a.property;
         S.current_case = c.text();
@@ -130,7 +155,7 @@ inline int run_main(int argc, char **argv, std::map<std::string, Prop> &props) {
             if (S.counting) S.excluded[v.key]++;
             return;
         }
-        if (!v.ok) { lastFail = c; lastV = v; haveFail = true; }
+        if (!v.ok) { if (!haveFail) shrink_deadline = time(nullptr) + 60; lastFail = c; lastV = v; haveFail = true; }
         if (!v.ok) RC_FAIL(v.key + ": " + v.message);
     });
     if (!ok && haveFail) {
